@@ -114,6 +114,7 @@ def main():
         if found.get(k) != v: raise GenError('similar-insert branch for %r has an unrecognised right-hand side' % k)
     if found.get('id') == expr('{"local_id": lcell[k], "remote_id": rcell[k]}'): simid = 'SimIdDict'
     elif found.get('id') == expr('lcell[k]'): simid = 'SimIdLocal'
+    elif found.get('id') == expr('lcell[k] if k in lcell else rcell[k]'): simid = 'SimIdLocalElseRemote'
     else: raise GenError("similar-insert branch for 'id' has an unrecognised right-hand side")
     ATT = '''latt = lcell.get(k) or {}
 ratt = rcell.get(k) or {}
@@ -153,7 +154,7 @@ for name in sorted(set(latt) | set(ratt)):
            'From Coq Require Import List NArith String.', 'From NB Require Import Base.Json Diff.Codec.', 'Import ListNotations.',
            'Local Open Scope string_scope.', '',
            'Inductive marker_id_policy := MarkerIdAlways | MarkerIdIffPayload.',
-           'Inductive similar_id_policy := SimIdDict | SimIdLocal.',
+           'Inductive similar_id_policy := SimIdDict | SimIdLocal | SimIdLocalElseRemote.',
            'Inductive similar_att_policy := SimAttUnsupported | SimAttKeepBoth.', '',
            '(* nbformat.v4.new_markdown_cell(source=s) = {cell_type: markdown, metadata: {}, source: s} plus a fresh id iff: *)',
            'Definition new_markdown_cell_adds_id : bool := %s.' % coq_bool(has_id),
